@@ -93,3 +93,40 @@ package store
 //@   requires n.fs != nil && n.fs.layerManager != nil && n.refnode != nil && out != nil && n.fs.layerMap != nil
 //@   assert[C01,C16] before "cn := &blobnode{l: l, fs: n.fs}" : verifiedLayer == payload(l) && verifiedDigest == n.digest
 //@   ensures[C01,C16] rootNodes == old(rootNodes) || (rootNodes == old(rootNodes) + 1 && rootLayer == verifiedLayer && verifiedDigest == n.digest)
+
+// ---- C16: a node ID is recycled only when the kernel has forgotten the node ----
+// go-fuse addresses nodes by (file type, inode number); the kernel keeps referring to a removed directory until it sends
+// FORGET, and only then does go-fuse call OnForget. Returning an ID earlier hands it to the next new node while the old
+// node still answers under that number (a lookup of another digest is then served by the stale, released layer directory).
+// byFuse: the call comes from go-fuse's forget handling -- nothing in this module can establish it, so no module
+// function may call an OnForget method or idMap.remove other than those methods (`allcallers`: every caller is checked).
+//@ uf byFuse() bool
+//@ func (m *idMap) remove
+//@   props C16
+//@   allcallers
+//@   requires[C16] byFuse()
+//@ func (n *refnode) OnForget
+//@   props C16
+//@   allcallers
+//@   requires[C16] byFuse()
+//@   requires n.fs != nil && n.fs.nodeMap != nil
+//@ func (n *layernode) OnForget
+//@   props C16
+//@   allcallers
+//@   requires[C16] byFuse()
+//@   requires n.fs != nil && n.fs.nodeMap != nil
+//@ func (n *blobnode) OnForget
+//@   props C16
+//@   allcallers
+//@   requires[C16] byFuse()
+//@   requires n.fs != nil && n.fs.nodeMap != nil
+//@ func (n *MemRegularFileOnForget) OnForget
+//@   props C16
+//@   allcallers
+//@   requires[C16] byFuse()
+//@   requires n.fs != nil && n.fs.nodeMap != nil && n.attr != nil
+//@ func (n *MemSymlinkOnForget) OnForget
+//@   props C16
+//@   allcallers
+//@   requires[C16] byFuse()
+//@   requires n.fs != nil && n.fs.nodeMap != nil && n.attr != nil
